@@ -13,6 +13,7 @@ import WowVerif.Model.UpdateMask
 import WowVerif.Model.ChunkFrame
 import WowVerif.Model.View
 import WowVerif.Model.Cfg
+import WowVerif.Model.Wireshark
 import Std.Data.HashMap
 namespace WowVerif.Driver
 
@@ -380,6 +381,94 @@ def geoHandle (ws : List String) : Option String :=
 /-! ## specification semantics of containers (C01 family) -/
 structure DState where
   corpus : Std.HashMap String (Nat × Sem.Members) := {}
+  wsprogs : Std.HashMap String Wireshark.Block := {}
+
+/-! ### C17: token reader for dissector programs -/
+namespace WsParse
+open Wireshark
+
+def enc? : String → Option Enc
+  | "le" => some .le | "be" => some .be | "na" => some .na | _ => none
+
+def nats (k : Nat) (ts : List String) : Option (List Nat × List String) :=
+  if ts.length < k then none else ((ts.take k).mapM fun (t : String) => t.toNat?).map fun l => (l, ts.drop k)
+
+def cond? : List String → Option (WCond × List String)
+  | "s2c" :: r => some (.s2c, r)
+  | "eq" :: v :: k :: r => match v.toNat?, k.toNat? with
+      | some v, some k => (nats k r).map fun (l, r) => (.eq v l, r)
+      | _, _ => none
+  | "ne" :: v :: a :: r => match v.toNat?, a.toNat? with
+      | some v, some a => some (.ne v a, r)
+      | _, _ => none
+  | "band" :: v :: k :: r => match v.toNat?, k.toNat? with
+      | some v, some k => (nats k r).map fun (l, r) => (.band v l, r)
+      | _, _ => none
+  | _ => none
+
+mutual
+partial def block : List String → Option (Block × List String)
+  | "end" :: r => some (.nil, r)
+  | ts => match stmt ts with
+      | some (s, r) => (block r).map fun (b, r) => (.cons s b, r)
+      | none => none
+partial def stmt : List String → Option (Stmt × List String)
+  | "add" :: n :: e :: r => match n.toNat?, enc? e with | some n, some e => some (.add n e, r) | _, _ => none
+  | "addv" :: v :: e :: r => match v.toNat?, enc? e with | some v, some e => some (.addv v e, r) | _, _ => none
+  | "addrest" :: e :: r => (enc? e).map fun e => (.addrest e, r)
+  | "ret" :: n :: e :: v :: r => match n.toNat?, enc? e, v.toNat? with | some n, some e, some v => some (.ret n e v, r) | _, _, _ => none
+  | "cstr" :: r => some (.cstr, r)
+  | "scstr" :: r => some (.scstr, r)
+  | "str" :: r => some (.str, r)
+  | "pguid" :: r => some (.pguid, r)
+  | "prim" :: n :: r => some (.prim n, r)
+  | "forc" :: n :: r => match n.toNat? with | some n => (block r).map fun (b, r) => (.forc n b, r) | none => none
+  | "forv" :: v :: r => match v.toNat? with | some v => (block r).map fun (b, r) => (.forv v b, r) | none => none
+  | "while" :: r => (block r).map fun (b, r) => (.whileNotEnd b, r)
+  | "ifrest" :: r => (block r).map fun (b, r) => (.ifrest b, r)
+  | "if" :: k :: r => match k.toNat? with | some k => (arms k r).map fun (a, r) => (.ifs a, r) | none => none
+  | "ver" :: k :: r => match k.toNat? with | some k => (cases k r).map fun (c, r) => (.ver c, r) | none => none
+  | _ => none
+partial def arms : Nat → List String → Option (Arms × List String)
+  | 0, r => (block r).map fun (b, r) => (.els b, r)
+  | k + 1, r => match cond? r with
+      | some (c, r) => match block r with
+          | some (b, r) => (arms k r).map fun (a, r) => (.cons c b a, r)
+          | none => none
+      | none => none
+partial def cases : Nat → List String → Option (Cases × List String)
+  | 0, r => some (.nil, r)
+  | k + 1, n :: r => match n.toNat?, block r with
+      | some n, some (b, r) => (cases k r).map fun (c, r) => (.cons n b c, r)
+      | _, _ => none
+  | _, [] => none
+end
+
+/-- a whole program: statements up to the end of the token list -/
+def program (ts : List String) : Option Block :=
+  match block (ts ++ ["end"]) with
+  | some (b, []) => some b
+  | _ => none
+
+def showEnc : Enc → String | .le => "le" | .be => "be" | .na => "na"
+def showErr : WErr → String
+  | .eof => "eof" | .unbound v => s!"unbound-{v}" | .noProgress => "noprogress" | .unsupported w => s!"unsupported-{w}" | .noCase v => s!"nocase-{v}"
+
+/-- compare the walk of the dissector program with the trace the definition prescribes -/
+def compare (ctx : Ctx) (p : Block) (spec : Trace) (bs : List UInt8) : String :=
+  match run ctx p bs with
+  | .error (.unsupported w) => s!"unsupported {w}"
+  | .error e => s!"wserr {showErr e}"
+  | .ok (tr, rest) =>
+    if !rest.isEmpty then s!"left {rest.length} consumed={bs.length - rest.length}"
+    else if traceEq spec tr then s!"ok same n={bs.length} fields={tr.length}"
+    else
+      let i := ((List.range (max spec.length tr.length)).find? fun i => match spec[i]?, tr[i]? with
+        | some a, some b => !entryEq a b
+        | _, _ => true).getD 0
+      let sh := fun (x : Option (Nat × Enc)) => match x with | some (w, e) => s!"{w}:{showEnc e}" | none => "none"
+      s!"diff at={i} spec={sh spec[i]?} ws={sh tr[i]?}"
+end WsParse
 
 def showErr : Sem.Err → String
   | .eof => "err eof"
@@ -399,10 +488,46 @@ def loadLine (st : DState) (line : String) : DState :=
     match op.toNat?, Sem.parseMembers toks with
     | some op, some (ms, []) => { st with corpus := st.corpus.insert key (op, ms) }
     | _, _ => st
+  | "ws" :: name :: toks =>
+    match WsParse.program toks with
+    | some b => { st with wsprogs := st.wsprogs.insert name b }
+    | none => st
   | _ => st
 
 def semHandle (st : DState) (ws : List String) : Option String :=
   match ws with
+  | ["wskeys"] => some s!"{st.wsprogs.size}"
+  | ["wsrun", name, s2c, ver, key, seed, maxLen, sample] =>
+    -- C17: generate a canonical value of container `key`, encode it, walk it with dissector program `name`
+    match st.wsprogs.get? name, st.corpus.get? key, seed.toNat?, maxLen.toNat?, sample.toNat?, ver.toNat? with
+    | some p, some (_, c), some seed, some maxLen, some sample, some ver =>
+      match Sem.firstPrim c with
+      | some w => some s!"unsupported {w}"
+      | none =>
+        if !Sem.wfMs c then some "notwf" else
+        match Sem.genContainer c seed maxLen sample with
+        | none => some "genfail"
+        | some vs => match Sem.encode c vs, Wireshark.trMembers c [] vs with
+          | some b, some (tr, _) => some s!"{WsParse.compare { s2c := s2c == "1", version := ver } p tr b} hex={if b.isEmpty then "-" else hexOf b}"
+          | _, _ => some "encfail"
+    | none, _, _, _, _, _ => some "nows"
+    | _, none, _, _, _, _ => some "nokey"
+    | _, _, _, _, _, _ => some "bad-op"
+  | ["wsbytes", name, s2c, ver, key, hex] =>
+    -- the same on given bytes (test vectors, replays): the specification trace comes from decoding them
+    match st.wsprogs.get? name, st.corpus.get? key, unhex hex, ver.toNat? with
+    | some p, some (_, c), some bs, some ver =>
+      match Sem.firstPrim c with
+      | some w => some s!"unsupported {w}"
+      | none =>
+        match Sem.decode c bs with
+        | .error e => some s!"specerr {showErr e}"
+        | .ok vs => match Wireshark.trMembers c [] vs with
+          | some (tr, _) => some (WsParse.compare { s2c := s2c == "1", version := ver } p tr bs)
+          | none => some "tracefail"
+    | none, _, _, _ => some "nows"
+    | _, none, _, _ => some "nokey"
+    | _, _, _, _ => some "bad-op"
   | "gen" :: key :: seed :: rest =>
     match st.corpus.get? key, seed.toNat? with
     | some (_, c), some seed =>
